@@ -357,45 +357,58 @@ pub fn nominal_t(b: &[u8]) -> u64 {
     t
 }
 
-pub fn gen_blocks(rng: &mut Rng, idx: u64) -> Vec<Vec<u8>> {
-    // every few tapes: a block with all 256 byte values, a block crossing the 128-byte buffer, a header block
-    let mut blocks = vec![];
-    let n = if rng.chance(1, 3) { 2 } else { 1 };
-    for j in 0..n {
-        let mut b = match (idx + j) % 6 {
-            0 => {
-                let mut v: Vec<u8> = (0..=255u8).collect();
-                // random rotation so that every value meets every buffer position over time
-                let r = rng.below(256) as usize;
-                v.rotate_left(r);
-                let mut b = vec![0xFF];
-                b.extend(v);
-                b
-            }
-            1 => {
-                let len = *rng.pick(&[127usize, 128, 129, 130, 255, 256, 257]);
-                let mut b = vec![0xFFu8];
-                b.extend(rng.bytes(len - 1));
-                b
-            }
-            2 => {
-                // header-like block: flag 0, long pilot
-                let mut b = vec![0x00u8];
-                b.extend(rng.bytes(17));
-                b
-            }
-            _ => {
-                let len = rng.range(1, 24) as usize;
-                let mut b = vec![if rng.bool() { 0xFF } else { rng.u8() | 1 }];
-                b.extend(rng.bytes(len - 1));
-                b
-            }
-        };
+pub const FLAGS: [u8; 6] = [0x00, 0xFF, 0x00, 0x01, 0x80, 0x7F];
+/// total block lengths (flag and checksum included); 19 is the standard header, 258 carries all byte values
+pub const LENGTHS: [usize; 16] = [19, 1, 2, 3, 17, 18, 20, 21, 127, 128, 129, 130, 256, 257, 258, 300];
+
+/// One block with the given flag byte and total length (checksum last when there is room for one).
+pub fn make_block(rng: &mut Rng, flag: u8, len: usize) -> Vec<u8> {
+    let mut b = vec![flag];
+    if len == 258 {
+        // all 256 byte values, rotated so that over time every value meets every buffer position
+        let mut v: Vec<u8> = (0..=255u8).collect();
+        let r = rng.below(256) as usize;
+        v.rotate_left(r);
+        b.extend(v);
+    } else if len >= 2 {
+        b.extend(rng.bytes(len - 2));
+    }
+    if len >= 2 {
         let x = b.iter().fold(0u8, |a, v| a ^ v);
         b.push(x);
-        blocks.push(b);
     }
-    blocks
+    b
+}
+
+/// Flag bytes and block lengths are chosen independently of each other: `idx` walks through all
+/// (flag, length) pairs of FLAGS x LENGTHS (coprime strides), every third block is fully random.
+pub fn gen_block(rng: &mut Rng, idx: u64) -> Vec<u8> {
+    if idx % 3 == 2 {
+        let flag = match rng.below(4) {
+            0 => 0x00,
+            1 => 0xFF,
+            _ => rng.u8(),
+        };
+        let len = if rng.chance(1, 4) { rng.range(1, 320) as usize } else { rng.range(1, 40) as usize };
+        return make_block(rng, flag, len);
+    }
+    let k = idx - idx / 3; // consecutive numbering of the non-random blocks
+    let flag = FLAGS[(k % FLAGS.len() as u64) as usize];
+    let len = LENGTHS[((k / FLAGS.len() as u64 + k) % LENGTHS.len() as u64) as usize];
+    make_block(rng, flag, len)
+}
+
+pub fn gen_blocks(rng: &mut Rng, idx: u64) -> Vec<Vec<u8>> {
+    let n = if rng.chance(1, 4) { 2 } else { 1 };
+    (0..n).map(|j| gen_block(rng, idx * 2 + j)).collect()
+}
+
+pub fn block_class(b: &[u8]) -> String {
+    format!(
+        "flag {} len {}",
+        match b[0] { 0x00 => "00", 0xFF => "ff", _ => "other" },
+        match b.len() { 1 => "1", 2 => "2", 3..=16 => "3-16", 17 | 18 => "17-18", 19 => "19", 20 | 21 => "20-21", 22..=126 => "22-126", 127..=130 => "127-130", 131..=255 => "131-255", 256..=258 => "256-258", _ => ">258" }
+    )
 }
 
 pub fn gen_runs(rng: &mut Rng, total_t: u64) -> Vec<Cmd> {
@@ -725,25 +738,33 @@ pub fn run_sys_case(m10: &mut Model, c: &SysCase, expect_tape: &[u8], prop: &str
 }
 
 pub fn gen_sys_case(rng: &mut Rng, idx: u64) -> SysCase {
-    // small tapes: the pilot dominates the cost (about 100 frames per data block, 250 per header)
+    // small tapes: the pilot dominates the cost (about 100 frames per block with a short pilot, 250 with the long one).
+    // Flag byte and length are independent: flag 0x00 with lengths other than 19, other flags with length 19, ...
     let nb = if idx % 3 == 0 { 2 } else { 1 };
     let mut blocks = vec![];
     for j in 0..nb {
-        let len = if (idx + j) % 4 == 1 { rng.range(130, 200) as usize } else { rng.range(2, 20) as usize };
-        let flag = if idx % 5 == 4 && j == 0 { 0x00 } else { 0xFF };
-        let mut b = vec![flag];
-        b.extend(rng.bytes(len - 1));
-        let mut x = b.iter().fold(0u8, |a, v| a ^ v);
+        let flag = [0xFFu8, 0x00, 0xFF, 0x01, 0x00, 0x80][((idx + j) % 6) as usize];
+        let len = match (idx / 2 + j) % 8 {
+            0 => 19,
+            1 => 3,
+            2 => 17,
+            3 => 20,
+            4 => rng.range(130, 200) as usize,
+            5 => 18,
+            6 => 2,
+            _ => rng.range(3, 24) as usize,
+        };
+        let mut b = make_block(rng, flag, len);
         if rng.chance(1, 8) {
-            x ^= 0x10;
+            let l = b.len() - 1;
+            b[l] ^= 0x10;
         }
-        b.push(x);
         blocks.push(b);
     }
     let mut ops = vec![SysOp::Play];
     for (j, b) in blocks.iter().enumerate() {
         let last = j + 1 == blocks.len();
-        let matching = (b.len() - 2) as u16;
+        let matching = b.len().saturating_sub(2) as u16;
         // requests that leave the tape in mid-block are only issued last
         let de = if last {
             match rng.below(6) {
@@ -790,17 +811,386 @@ fn report_sys_failure(rep: &mut Report, c: &SysCase, d: Dis) {
     });
 }
 
+// ---------------------------------------------------------------- system level: EAR under arbitrary code
+
+/// What the CPU executes while the tape plays (the property: "whatever instructions the CPU is executing").
+pub const PROGRAMS: [&str; 9] = [
+    "DI:HALT",
+    "EI:HALT IM1 (ROM handler)",
+    "EI:HALT IM2",
+    "LDIR 64K",
+    "OTIR to port FE",
+    "JR $",
+    "DJNZ/INC/JP loop",
+    "random instruction stream, DI",
+    "random instruction stream, EI IM1",
+];
+
+#[derive(Clone, Debug, PartialEq)]
+pub struct EarCase {
+    pub m128: bool,
+    pub prog: usize,
+    /// where the program runs: 0x8000 (uncontended on both machines) or 0x6000 (contended)
+    pub at: u16,
+    pub pseed: u32,
+    pub tape: Vec<u8>,
+}
+
+pub fn ear_text(c: &EarCase) -> String {
+    format!(
+        "ear m128={} prog={} at={:04x} pseed={:x} tape={}",
+        if c.m128 { 1 } else { 0 },
+        c.prog,
+        c.at,
+        c.pseed,
+        if c.tape.is_empty() { "-".to_string() } else { hex(&c.tape) }
+    )
+}
+
+pub fn parse_ear(s: &str) -> EarCase {
+    let mut c = EarCase { m128: false, prog: 0, at: 0x8000, pseed: 0, tape: vec![] };
+    for kv in s.split_whitespace() {
+        if kv == "m128=1" {
+            c.m128 = true;
+        }
+        if let Some(v) = kv.strip_prefix("prog=") {
+            c.prog = v.parse().unwrap_or(0);
+        }
+        if let Some(v) = kv.strip_prefix("at=") {
+            c.at = u16::from_str_radix(v, 16).unwrap_or(0x8000);
+        }
+        if let Some(v) = kv.strip_prefix("pseed=") {
+            c.pseed = u32::from_str_radix(v, 16).unwrap_or(0);
+        }
+        if let Some(v) = kv.strip_prefix("tape=") {
+            if v != "-" {
+                c.tape = unhex(v);
+            }
+        }
+    }
+    c
+}
+
+/// A stream of instructions without jumps, stores outside the scratch page, HALT or stack imbalance.
+fn random_stream(rng: &mut Rng, n: usize) -> Vec<u8> {
+    let mut p = vec![];
+    for _ in 0..n {
+        match rng.below(16) {
+            0 => p.push(0x00),
+            1 | 2 => {
+                // LD r,r' / LD r,(HL) / LD (HL),r   (0x76 = HALT excluded)
+                let mut op = 0x40 + rng.below(0x40) as u8;
+                if op == 0x76 {
+                    op = 0x7E;
+                }
+                // keep H and L (the scratch pointer) intact
+                if (op >> 3) & 7 == 4 || (op >> 3) & 7 == 5 {
+                    op = 0x78 | (op & 7);
+                    if op == 0x7E - 8 {
+                        op = 0x7E;
+                    }
+                }
+                p.push(op);
+            }
+            3 | 4 => p.push(0x80 + rng.below(0x40) as u8), // ALU A,r / A,(HL)
+            5 => p.push(*rng.pick(&[0x04u8, 0x05, 0x0C, 0x0D, 0x14, 0x15, 0x1C, 0x1D, 0x3C, 0x3D, 0x34, 0x35])),
+            6 => p.push(*rng.pick(&[0x07u8, 0x0F, 0x17, 0x1F, 0x27, 0x2F, 0x37, 0x3F, 0x08, 0xD9])),
+            7 => p.extend_from_slice(&[0xC5, 0xC1]), // PUSH BC ; POP BC
+            8 => {
+                // rotates, BIT/RES/SET on registers and (HL); H and L (the scratch pointer) are left alone
+                let mut op = rng.u8();
+                if op & 7 == 4 || op & 7 == 5 {
+                    op &= 0xF8;
+                }
+                p.extend_from_slice(&[0xCB, op]);
+            }
+            9 => p.extend_from_slice(&[*rng.pick(&[0xDDu8, 0xFD]), 0x46 + 8 * rng.below(4) as u8, rng.below(0x40) as u8]), // LD r,(IX/IY+d)
+            10 => p.extend_from_slice(&[0xDB, 0xFE]), // IN A,(FE)
+            11 => p.extend_from_slice(&[0xD3, 0xFE]), // OUT (FE),A
+            12 => p.extend_from_slice(&[0xED, *rng.pick(&[0x44u8, 0x5F, 0x57, 0x6F, 0x67])]), // NEG, LD A,R, LD A,I, RLD, RRD
+            13 => p.extend_from_slice(&[0x3E, rng.u8()]),
+            14 => p.extend_from_slice(&[0x01, rng.u8(), rng.u8()]), // LD BC,nn
+            _ => p.extend_from_slice(&[0xED, 0xA0, 0x2B, 0x1B]), // LDI ; DEC HL ; DEC DE
+        }
+    }
+    p
+}
+
+/// The machine code of program `prog` placed at `at`.
+fn program_bytes(c: &EarCase) -> Vec<u8> {
+    let at = c.at;
+    let jp_start = [0xC3, (at & 0xFF) as u8, (at >> 8) as u8];
+    match c.prog {
+        0 => vec![0xF3, 0x76],
+        1 => vec![0xED, 0x56, 0xFB, 0x76, 0x18, 0xFD],
+        2 => vec![0xED, 0x5E, 0x3E, 0xBE, 0xED, 0x47, 0xFB, 0x76, 0x18, 0xFD],
+        3 => {
+            // source in contended screen memory when the code itself is contended
+            let src: u16 = if at < 0x8000 { 0x4000 } else { 0x9000 };
+            let mut p = vec![0x21, (src & 0xFF) as u8, (src >> 8) as u8, 0x11, 0x00, 0xA0, 0x01, 0x00, 0x00, 0xED, 0xB0];
+            p.extend_from_slice(&jp_start);
+            p
+        }
+        4 => {
+            let mut p = vec![0x21, 0x00, 0x90, 0x01, 0xFE, 0x00, 0xED, 0xB3];
+            p.extend_from_slice(&jp_start);
+            p
+        }
+        5 => vec![0x18, 0xFE],
+        6 => {
+            let mut p = vec![0x10, 0xFE, 0x3C];
+            p.extend_from_slice(&jp_start);
+            p
+        }
+        _ => {
+            let mut r = Rng::new(c.pseed as u64 ^ 0xEA7);
+            let mut p = if c.prog == 8 { vec![0xED, 0x56, 0xFB] } else { vec![0xF3] };
+            let body_at = at + p.len() as u16;
+            p.extend(random_stream(&mut r, 120));
+            p.extend_from_slice(&[0xC3, (body_at & 0xFF) as u8, (body_at >> 8) as u8]);
+            p
+        }
+    }
+}
+
+#[derive(Clone, Debug, Default)]
+pub struct EarObs {
+    pub status: String,
+    /// every EAR edge: seen low/high at `a`, the other level at `b` (T-states since play)
+    pub edges: Vec<(u64, u64, bool)>,
+    pub last_t: u64,
+    pub steps: u64,
+    pub max_step: u64,
+    pub halted_steps: u64,
+}
+
+/// Plays `tape` on a real machine while the CPU runs the program; EAR (bit 6 of port 0xFFFE) is
+/// sampled after every emulated instruction. Runs until `until_t` T-states have passed.
+pub fn ear_observe(c: &EarCase, until_t: u64) -> EarObs {
+    let mut cfg = Cfg::new(c.m128);
+    cfg.rom = true;
+    let mut e = emu(&cfg);
+    if c.m128 {
+        e.verif_write_io(0x7FFD, 0x10);
+    }
+    let frame_len: u64 = if c.m128 { 70908 } else { 69888 };
+    for (i, b) in program_bytes(c).iter().enumerate() {
+        e.verif_write_mem(c.at.wrapping_add(i as u16), *b, 0);
+    }
+    // IM 2: 257-byte vector table at 0xBE00 pointing to 0xBFBF: EI ; RETI
+    for i in 0..=256u16 {
+        e.verif_write_mem(0xBE00 + i, 0xBF, 0);
+    }
+    for (i, b) in [0xFBu8, 0xED, 0x4D].iter().enumerate() {
+        e.verif_write_mem(0xBFBF + i as u16, *b, 0);
+    }
+    {
+        let cpu = e.verif_cpu();
+        cpu.regs.set_pc(c.at);
+        cpu.regs.set_sp(0xFF00);
+        cpu.regs.set_hl(if c.at < 0x8000 { 0x5000 } else { 0x9800 });
+        cpu.regs.set_de(0xA800);
+        cpu.regs.set_reg_16(RegName16::IX, if c.at < 0x8000 { 0x5080 } else { 0x9880 });
+        cpu.regs.set_reg_16(RegName16::IY, 0x5C3A);
+        cpu.regs.set_iff1(false);
+        cpu.regs.set_iff2(false);
+        cpu.halted = false;
+    }
+    let mut d = Dbg::default();
+    d.break_all = true;
+    e.set_debug_interface(d);
+    let _ = e.load_tape(rustzx_core::host::Tape::Tap(VAsset::new(c.tape.clone())));
+    // time base: frames completed * frame length + position in the frame; emulate_frames resets the
+    // frame counter on entry, so completed frames are banked before every call
+    let mut bank: u64 = 0;
+    let now = |e: &Emu, bank: u64| bank + e.verif_frames_count() as u64 * frame_len + e.verif_frame_clocks() as u64;
+    let t0 = now(&e, bank);
+    e.play_tape();
+    let mut obs = EarObs { status: "ok".into(), ..Default::default() };
+    // the deck starts with EAR low; the very first sample is taken like all the others
+    let mut level = false;
+    let mut t_prev: u64 = 0;
+    {
+        let l = e.verif_read_io(0xFFFE) & 0x40 != 0;
+        let t = now(&e, bank) - t0;
+        if l != level {
+            obs.edges.push((t_prev, t, l));
+            level = l;
+        }
+        t_prev = t;
+    }
+    while t_prev < until_t {
+        bank += e.verif_frames_count() as u64 * frame_len;
+        let before = now(&e, bank) - e.verif_frames_count() as u64 * frame_len; // the counter is reset on entry
+        let halted = e.verif_cpu().is_halted();
+        let r = catch_unwind(AssertUnwindSafe(|| e.emulate_frames(std::time::Duration::from_secs(3600))));
+        match r {
+            Err(_) => {
+                obs.status = "panic".into();
+                break;
+            }
+            Ok(Err(err)) => {
+                obs.status = c10::err_name(&format!("{:?}", err));
+                break;
+            }
+            Ok(Ok(_)) => {}
+        }
+        let after = now(&e, bank);
+        obs.steps += 1;
+        if halted {
+            obs.halted_steps += 1;
+        }
+        obs.max_step = obs.max_step.max(after - before);
+        let l = e.verif_read_io(0xFFFE) & 0x40 != 0;
+        let t = now(&e, bank) - t0;
+        if l != level {
+            obs.edges.push((t_prev, t, l));
+            level = l;
+        }
+        t_prev = t;
+    }
+    obs.last_t = t_prev;
+    obs
+}
+
+/// The sampled waveform against the spec (widened by the sampling resolution, `Spec.pulseOkWide`).
+pub fn run_ear_case(model: &mut Model, c: &EarCase, mut rep: Option<&mut Report>) -> Option<Dis> {
+    let (blocks, _) = split(&c.tape);
+    let total: u64 = blocks.iter().map(|b| nominal_t(b)).sum();
+    // to the end of the last block's data, a little into its pause
+    let until = total.saturating_sub(3_500_000) + 33 * (blocks.iter().map(|b| 8100 + 16 * b.len() as u64).sum::<u64>()) + 160_000;
+    let obs = ear_observe(c, until);
+    let a0 = model.ask(&format!("tape {}", if c.tape.is_empty() { "-".to_string() } else { hex(&c.tape) }));
+    assert!(a0.starts_with("ok"));
+    let mut line = format!("adjwide {:x}", obs.last_t);
+    for (a, b, l) in &obs.edges {
+        line.push_str(&format!(" {:x}:{:x}:{}", a, b, if *l { 1 } else { 0 }));
+    }
+    let verdict = model.ask(&line);
+    if let Some(r) = rep.as_deref_mut() {
+        r.evaluations += obs.edges.len() as u64 + 1;
+        r.count_n("ear_layer_edges", PROGRAMS[c.prog.min(8)], obs.edges.len() as u64);
+        r.count_n("ear_layer_steps", if obs.halted_steps * 2 > obs.steps { "CPU halted" } else { "CPU running" }, obs.steps);
+        r.count("ear_layer_verdict", verdict.split(':').next().unwrap_or("?").to_string());
+        r.class(format!("ear prog {} {} at {:04x} {}", c.prog, if c.m128 { "128K" } else { "48K" }, c.at, blocks.iter().map(|b| block_class(b)).collect::<Vec<_>>().join(",")));
+        let m = r.extra.iter().position(|(k, _)| k == "ear_max_step_t");
+        let cur = match m { Some(i) => if let J::I(v) = r.extra[i].1 { v } else { 0 }, None => 0 };
+        let v = cur.max(obs.max_step as i64);
+        match m { Some(i) => r.extra[i].1 = J::I(v), None => r.extra.push(("ear_max_step_t".into(), J::I(v))) }
+    }
+    if obs.status != "ok" {
+        return Some(Dis {
+            kind: Kind::ModelMismatch,
+            key: format!("C11/ear/{}", obs.status),
+            what: format!("the machine failed while the tape was playing under program '{}': {}", PROGRAMS[c.prog.min(8)], obs.status),
+            implementation: obs.status.clone(),
+            expected: "ok".into(),
+        });
+    }
+    if let Some(v) = verdict.strip_prefix("violates:") {
+        let class = v.split(':').last().unwrap_or(v).to_string();
+        let blk = v.split(':').next().unwrap_or("");
+        // for the message: how much waveform arrived in how much time
+        let first = obs.edges.first().map(|e| e.1).unwrap_or(0);
+        let last = obs.edges.last().map(|e| e.0).unwrap_or(0);
+        let pilot = if blocks.first().map(|b| b[0] == 0).unwrap_or(false) { 8063 } else { 3223 };
+        let seen = obs.edges.len().saturating_sub(1) as u64;
+        let nominal_seen = if seen <= pilot { format!("{} T nominal", seen * 2168) } else { format!("more than {} T nominal", pilot * 2168) };
+        return Some(Dis {
+            kind: Kind::SpecViolated,
+            key: format!("C11/ear/{}", class),
+            what: format!(
+                "EAR sampled through the real machine while the CPU runs '{}' ({}, code at {:04x}) is not the standard waveform: {} {} ({} pulses, {}, were seen between T={} and T={}; largest single emulation step {} T)",
+                PROGRAMS[c.prog.min(8)], if c.m128 { "128K" } else { "48K" }, c.at, blk, class, seen, nominal_seen, first, last, obs.max_step
+            ),
+            implementation: format!("{} edges in {} T, max step {} T", obs.edges.len(), obs.last_t, obs.max_step),
+            expected: "every pulse within nominal..nominal+32 T (widened by the sampling interval), pilot count by flag byte".into(),
+        });
+    }
+    // The theorems assume that the tape is fed in steps of at most 16 T. One emulated instruction is
+    // many such steps, but an instruction that takes longer than the shortest pulse can only come from
+    // time being passed in one piece: the waveform could then lose edges without this layer resolving them.
+    if obs.max_step > 512 {
+        return Some(Dis {
+            kind: Kind::ModelMismatch,
+            key: "C11/ear/step-granularity".into(),
+            what: format!(
+                "one emulation step under '{}' lasted {} T-states: the machine no longer advances the tape in bus-wait steps of at most 16 T \
+(hypothesis of timer_lemma/waveform); no pulse outside tolerance was resolved",
+                PROGRAMS[c.prog.min(8)], obs.max_step
+            ),
+            implementation: format!("max step {} T", obs.max_step),
+            expected: "every emulation step well below the shortest pulse (667 T)".into(),
+        });
+    }
+    None
+}
+
+fn report_ear_failure(model: &mut Model, rep: &mut Report, c: &EarCase, d: Dis) {
+    if rep.has_key(&d.key) {
+        rep.count("repeat_violations", d.key.clone());
+        return;
+    }
+    // shrink: shorter tape (one block, one byte), simpler program, 48K
+    let mut cur = c.clone();
+    let mut cands: Vec<EarCase> = vec![];
+    let (blocks, _) = split(&c.tape);
+    if !blocks.is_empty() {
+        let flag = blocks[0][0];
+        cands.push(EarCase { tape: encode(&[vec![flag]]), ..c.clone() });
+        cands.push(EarCase { tape: encode(&[vec![flag]]), m128: false, at: 0x8000, ..c.clone() });
+        cands.push(EarCase { tape: encode(&[vec![0xFF]]), m128: false, at: 0x8000, ..c.clone() });
+    }
+    for cand in cands {
+        if let Some(d2) = run_ear_case(model, &cand, None) {
+            if d2.key == d.key {
+                cur = cand;
+            }
+        }
+    }
+    let d2 = run_ear_case(model, &cur, None).unwrap_or(d);
+    rep.violation(Violation {
+        kind: d2.kind,
+        key: d2.key.clone(),
+        what: format!("{} [case: {}]", d2.what, truncate(&ear_text(&cur), 300)),
+        correspondence: "corr.C11.ear (EAR bit of port 0xFE sampled per emulated instruction on a real Emulator vs Spec.nominal, tolerance widened by the sampling interval)".into(),
+        case: J::obj(vec![("text", J::s(ear_text(&cur)))]),
+        implementation: d2.implementation.clone(),
+        expected: d2.expected.clone(),
+    });
+}
+
+pub fn gen_ear_case(rng: &mut Rng, idx: u64) -> EarCase {
+    let prog = (idx % 9) as usize;
+    // short blocks: the pilot is what takes time (a flag-0x00 block takes 2.5 times longer: only under the
+    // coarser-stepping programs in the quick tier)
+    let long_ok = matches!(prog, 3 | 4 | 6);
+    let flag = if long_ok && idx % 2 == 0 { 0x00 } else { *rng.pick(&[0xFFu8, 0xFF, 0x01, 0x80, 0xAA]) };
+    let len = *rng.pick(&[1usize, 2, 3, 5, 19, 20]);
+    let blocks = vec![make_block(rng, flag, len)];
+    EarCase {
+        m128: idx % 4 == 3,
+        prog,
+        at: if idx % 5 == 2 { 0x6000 } else { 0x8000 },
+        pseed: rng.next() as u32,
+        tape: encode(&blocks),
+    }
+}
+
 pub fn run(o: &Opts) -> Report {
     let mut rep = Report::new("C11");
-    rep.rule = "component level: TAP images of 1-2 non-empty blocks (rotating through: all 256 byte values, lengths \
-127..130/255..257 around the 128-byte buffer, header blocks with flag 0x00 and the long pilot, short random blocks) played on the real \
-Tap<VAsset> (short reads varied) under 1-3 consecutive step schedules (uniform 1..16, constant, mostly 1..4, alternating 16/1, \
-instruction-like) until past the end of the tape; every EAR edge time and the stop time compared exactly with the Lean model and the \
-pulse list adjudicated by the waveform spec (pilot count, 2168/667/735/855/1710 within +0..32 T, pause 3.0-4.5 MT); malformed images \
-(empty block, truncated block) compared with the model only. System level: the real 48K ROM LD-BYTES loading the playing tape in real \
-time (1-2 small blocks, LOAD/VERIFY, matching/short/zero/long DE, wrong flag, bad checksum) compared with Spec.ldBytes and with fast \
-loading. distinct/non-trivial = distinct (schedule kind, block class) of component runs that reached the end of the tape plus distinct \
-ROM load classes"
+    rep.rule = "component level: TAP images of 1-2 non-empty blocks whose flag byte (00, ff, 01, 80, 7f, random) and total length (1, 2, 3, \
+17-21, 127-130, 256-258 incl. all 256 byte values, 300, random) are chosen independently, played on the real Tap<VAsset> (short reads varied) \
+under 1-3 consecutive step schedules (uniform 1..16, constant, mostly 1..4, alternating 16/1, instruction-like) until past the end of the \
+tape; every EAR edge time and the stop time compared exactly with the Lean model and the pulse list adjudicated by the waveform spec (pilot \
+count by flag byte, 2168/667/735/855/1710 within +0..32 T, pause 3.0-4.5 MT); malformed images (empty block, truncated block) compared with \
+the model only. System level 1: the real 48K ROM LD-BYTES loading the playing tape in real time (1-2 small blocks, flags and lengths \
+independent, LOAD/VERIFY, matching/short/zero/long DE, wrong flag, bad checksum) compared with Spec.ldBytes and with fast loading. System \
+level 2: the tape played on a real Emulator (48K/128K) while the CPU executes DI:HALT, EI:HALT with IM1 and IM2, LDIR, OTIR, tight loops and \
+random instruction streams from uncontended or contended memory; EAR sampled after every emulated instruction, every pulse and every running \
+total checked against nominal with the tolerance widened by exactly the sampling interval, pilot count by flag byte, no emulation step \
+longer than 512 T. distinct/non-trivial = distinct (schedule kind, flag class, length class) of component runs plus distinct ROM load \
+classes plus distinct (program, machine, code address, block class) of EAR runs"
         .into();
     let mut model = Model::spawn(&o.model, "C11");
     let mut m10 = Model::spawn(&o.model, "C10");
@@ -809,7 +1199,12 @@ ROM load classes"
 
     if let Some(text) = &o.replay {
         rep.sample(J::s(truncate(text, 400)));
-        if text.starts_with("system") {
+        if text.starts_with("ear") {
+            let c = parse_ear(text);
+            if let Some(d) = run_ear_case(&mut model, &c, Some(&mut rep)) {
+                report_ear_failure(&mut model, &mut rep, &c, d);
+            }
+        } else if text.starts_with("system") {
             let c = parse_sys(text);
             if let Some(d) = run_sys_case(&mut m10, &c, &c.tape.clone(), "C11", Some(&mut rep)) {
                 report_sys_failure(&mut rep, &c, d);
@@ -834,12 +1229,12 @@ ROM load classes"
         cmds.extend(gen_runs(&mut r, total));
         let c = Case { tape: encode(&blocks), chunk: *r.pick(&[0usize, 0, 1, 100]), cmds };
         for b in &blocks {
-            rep.count("block_class", match b.len() { 0..=30 => if b[0] == 0 { "header (flag 00)" } else { "short" }, 31..=200 => "127-130", 201..=257 => "255-257", _ => "all byte values" });
+            rep.count("block_class", block_class(b));
         }
         for k in &c.cmds {
             if let Cmd::Run { kind, .. } = k {
                 rep.count("schedule_kind", ["uniform 1..16", "constant", "mostly 1..4", "alternating 16/1", "instruction-like"][*kind as usize]);
-                rep.class(format!("kind {} blocks {:?}", kind, blocks.iter().map(|b| (b.len() / 64, b[0] == 0)).collect::<Vec<_>>()));
+                rep.class(format!("kind {} blocks {:?}", kind, blocks.iter().map(|b| block_class(b)).collect::<Vec<_>>()));
             }
         }
         if idx < 2 {
@@ -870,6 +1265,20 @@ ROM load classes"
         rep.count("cases", "system (real ROM)");
         if let Some(d) = run_sys_case(&mut m10, &c, &c.tape.clone(), "C11", Some(&mut rep)) {
             report_sys_failure(&mut rep, &c, d);
+        }
+    }
+    // 3. system level: EAR under arbitrary code
+    let mut rng = Rng::new(o.seed ^ 0xEA11);
+    for idx in 0..o.n(27, 600) {
+        let mut r = rng.fork();
+        let c = gen_ear_case(&mut r, idx + (o.seed % 9));
+        if idx < 1 {
+            rep.sample(J::s(truncate(&ear_text(&c), 300)));
+        }
+        rep.count("cases", "system (EAR under arbitrary code)");
+        if let Some(d) = run_ear_case(&mut model, &c, Some(&mut rep)) {
+            rep.count("disagreeing_cases", format!("{:?} {}", d.kind, d.key));
+            report_ear_failure(&mut model, &mut rep, &c, d);
         }
     }
     rep.extra.push(("model_requests".into(), J::I((model.requests + m10.requests) as i64)));
